@@ -195,19 +195,16 @@ pub fn drive<I: Iterator>(mut it: I, style: usize, j: usize, len0: usize) -> (Ve
         }
         8 => (it.take(j).collect(), all.into_iter().take(j).collect(), None),
         9 => {
+            // nth(j) and then everything that is left: positions j, j+1, .. len0-1 (nothing if j overshoots:
+            // an overshooting nth must have consumed the whole iterator)
             let mut v: Vec<I::Item> = Vec::new();
-            let mut pos = Vec::new();
             if let Some(x) = it.by_ref().nth(j) {
                 v.push(x);
-                pos.push(j);
             }
-            let mut p = j + 1;
             for x in it {
                 v.push(x);
-                pos.push(p);
-                p += 1;
             }
-            (v, pos, None)
+            (v, (j..len0).collect(), None)
         }
         _ => {
             let mut v = Vec::new();
